@@ -119,6 +119,25 @@ PROPERTIES = {
         "not_decided": ["RTCDtlsTransport._handle_rtp_data/_handle_rtcp_data (callers of the router)",
                         "upper bound on the recipients of PSFB/REMB packets"],
     },
+    "C14": {
+        "claim": "Proof for RTCPeerConnection.__validate_description, the gate every setLocalDescription/setRemoteDescription "
+                 "call passes before anything is written: it raises InvalidStateError exactly when (side, type) is illegal in the "
+                 "current signalling state per the JSEP table (local offer: stable/have-local-offer; remote offer: "
+                 "stable/have-remote-offer; local (pr)answer: have-remote-offer; remote (pr)answer: have-local-offer; nothing in "
+                 "closed); on normal return every media section carries ICE ufrag and password, an answer has a definite DTLS "
+                 "role (client/server) in every section, audio/video sections use rtcp-mux, and an answer's sections mirror the "
+                 "pending offer's (count, order, kind, mid); it raises nothing but InvalidStateError/ValueError and writes "
+                 "nothing. Reduced: the state updates in setLocalDescription/setRemoteDescription/close and 'closed is absorbing' "
+                 "over call sequences are not under contract.",
+        "note": "Class invariant assumed for the peer connection: signalling state is one of stable/have-local-offer/"
+                "have-remote-offer/closed and a pending offer exists in the matching have-*-offer state (established by the "
+                "state-changing methods, which are not under contract here). Two genuine defects were found and fixed "
+                "(known_findings.json F-22, F-23).",
+        "design_ref": "DESIGN.md 4.14, 9",
+        "trusted_base": COMMON,
+        "not_decided": ["setLocalDescription / setRemoteDescription / createOffer / createAnswer / close state updates",
+                        "closed is absorbing over arbitrary call sequences", "RTCSessionDescription.__post_init__"],
+    },
     "C15": {
         "claim": "Proof that every integer bitrate in [0, 2^64) with up to 255 32-bit SSRCs is encodable by pack_remb_fci "
                  "and decodes to the listed SSRCs exactly, with mantissa*2^exp <= bitrate. Reduced: rate.py (estimator, "
@@ -181,6 +200,5 @@ NOT_APPLICABLE = {
     "C06": _NOT_BUILT + " (_maybe_abandon/_update_advanced_peer_ack_point/prune_chunks; F-15 stays unreported by any check)",
     "C09": "SDP parse/serialise is string/regex code; no contract within reach of the installed solvers decides the round trip (DESIGN 4.9)",
     "C13": _NOT_BUILT + " (DCEP codec, _setReadyState, bufferedAmount accounting; F-16 stays unreported by any check)",
-    "C14": _NOT_BUILT + " (JSEP projection of setLocal/RemoteDescription, DESIGN 4.14)",
     "C19": "termination and absence of leftover tasks/threads across coroutine interleavings is not expressible as a function contract (DESIGN 4.19)",
 }
